@@ -5,10 +5,11 @@ import vlib
 
 LEVEL = "model_checking"
 RULE = ("TLC model-checks implementation-shaped models of flightGroup, ResourceManager and lockedGroup (up to 3 "
-        "callers, 2 keys, 2-3 sequential calls each) against the Layer-P spec Flight.tla; FlightGen enumerates every "
-        "feasible API-level schedule of driver moves (call(k), release(k,outcome), del/inject, optionally hook stops) "
-        "up to D moves; each schedule is replayed on the real object with the supplied function as a gate and rest "
-        "detected from one atomic goroutine snapshot; free-running stress rounds (2-32 goroutines, 1-30 keys, "
+        "callers, 2 keys, 1-2 objects, 2-3 sequential calls each) against the Layer-P spec Flight.tla; FlightGen enumerates every "
+        "feasible API-level schedule of driver moves (call(ob,k), release(ob,k,outcome), del/inject, optionally hook stops) "
+        "up to D moves, over one object and over two objects handed the same key strings; each schedule is replayed on "
+        "the real objects with the supplied function as a gate and rest "
+        "detected from one atomic goroutine snapshot; free-running stress rounds (2-32 goroutines, 1-30 keys, 1-3 objects, "
         "GOMAXPROCS 1-16) are added; every recorded event trace is validated by TLC against Flight.tla. "
         "distinct = distinct schedules executed + stress rounds.")
 
@@ -39,7 +40,9 @@ def _has_hooks():
 
 
 def _replay(run, gen_cfg, pkg, files, test, label, extra=None, hooks=0):
-    beh = run.generate(FAM, "FlightGen", gen_cfg, workers=1)
+    beh = []
+    for cfg in ([gen_cfg] if isinstance(gen_cfg, str) else gen_cfg):
+        beh += run.generate(FAM, "FlightGen", cfg, workers=1)
     for b in beh:
         run.distinct.add((label, vlib.distinct_key(b)))
     run.evaluations += len(beh)
@@ -72,12 +75,17 @@ def check(run):
         "parked in its gate or in a package-sync primitive; no time limit takes part in any verdict",
         "what the joiner of a panicking execution receives is not constrained (the statement speaks of value and error)",
         "cache consumers: Del only while no Take on that key is open; expiry out of reach (1 h)",
+        "every clause is a promise of one object (SingleFlight, LockedCalls, ResourceManager instance) about the keys "
+        "handed to it: the key of a call is the pair (object, key string); objects given the same key string are "
+        "unrelated (no waiting on each other, no results or resources of one handed out by another)",
     ]
     w = 8 if thorough else 4
     # ---- design level: the algorithms satisfy Layer P; documented counterexamples for broken variants
     run.model_check(FAM, "SingleFlightImpl", "SFImplMCq.cfg", workers=w, note="flightGroup, 3 callers x 2 keys x 1 call")
     run.model_check(FAM, "LockedCallsImpl", "LCImplMCq.cfg", workers=w, note="lockedGroup, 3 callers x 2 keys x 1 call")
     run.model_check(FAM, "SingleFlightImpl", "RMImplMCq.cfg", workers=w, note="ResourceManager, 2 callers x 2 keys x 2 calls")
+    run.model_check(FAM, "SingleFlightImpl", "RMImplMC3q.cfg", workers=w,
+                    note="2 ResourceManagers given the same key string, 3 callers x 1 call")
     run.model_check(FAM, "SingleFlightImpl", "SFImplBugKeep.cfg", workers=1, expect="violation",
                     note="entry kept when fn failed: a later call is handed the retained error (CallEndOK)")
     run.model_check(FAM, "SingleFlightImpl", "SFImplBugRacy.cfg", workers=1, expect="violation",
@@ -86,7 +94,16 @@ def check(run):
                     note="no re-check after wg.Wait: two waiters of one runner execute together")
     run.model_check(FAM, "SingleFlightImpl", "RMImplBugOuter.cfg", workers=1, expect="violation",
                     note="map consulted before entering the flight (check-then-act): second successful create")
+    run.model_check(FAM, "SingleFlightImpl", "RMImplBugShared.cfg", workers=1, expect="violation",
+                    note="one flight group behind every manager: a caller of manager B is handed an instance of manager A")
     if thorough:
+        run.model_check(FAM, "SingleFlightImpl", "SFImplBugShared.cfg", workers=1, expect="violation",
+                        note="one calls map behind every SingleFlight: a call on group B waits for group A's execution")
+        run.model_check(FAM, "LockedCallsImpl", "LCImplBugShared.cfg", workers=1, expect="violation",
+                        note="one map behind every LockedCalls: a call on object B waits for object A's execution")
+        run.model_check(FAM, "SingleFlightImpl", "RMImplMC22.cfg", workers=8, note="2 ResourceManagers x 2 keys, 2 callers x 2 calls each")
+        run.model_check(FAM, "SingleFlightImpl", "SFImplMC22.cfg", workers=8, note="2 flightGroups x 2 keys, 2 callers x 2 calls each")
+        run.model_check(FAM, "LockedCallsImpl", "LCImplMC22.cfg", workers=8, note="2 lockedGroups x 2 keys, 2 callers x 2 calls each")
         run.model_check(FAM, "SingleFlightImpl", "RMImplBugNoCheck.cfg", workers=1, expect="violation",
                         note="create without consulting the map: a key is created successfully twice")
         run.model_check(FAM, "LockedCallsImpl", "LCImplSwap.cfg", workers=w,
@@ -105,6 +122,9 @@ def check(run):
     _replay(run, "GenSF%s.cfg" % sfx, PKG, DRV, "TestVerifFlightReplaySF$", "replay-SF")
     _replay(run, "GenLC%s.cfg" % sfx, PKG, DRV, "TestVerifFlightReplayLC$", "replay-LC")
     _replay(run, "GenRM%s.cfg" % sfx, PKG, DRV, "TestVerifFlightReplayRM$", "replay-RM")
+    # several objects (2 SingleFlights / LockedCalls / ResourceManagers) handed the same key strings
+    _replay(run, ["GenObjt.cfg", "GenObj2t.cfg"] if thorough else "GenObjq.cfg", PKG, DRV,
+            "TestVerifFlightReplayObjs$", "replay-objects")
     if _has_hooks():
         # schedules that park a leader between fn's return and delete / between delete and wg.Done
         _replay(run, "GenHookSF%s.cfg" % sfx, PKG, DRV, "TestVerifFlightReplaySF$", "hooked-SF", hooks=1)
@@ -112,7 +132,7 @@ def check(run):
     else:
         run.notes.append("optional hook points flight.beforeDelete/beforeDone not in the tree: hooked schedules skipped")
     ov = _sched_for(run, "core/collection", "collection")
-    _replay(run, "GenTake%s.cfg" % sfx, "core/collection", ["zz_verif_flight_cache_test.go"],
+    _replay(run, ["GenTake%s.cfg" % sfx, "GenTakeObj%s.cfg" % sfx], "core/collection", ["zz_verif_flight_cache_test.go"],
             "TestVerifFlightCacheReplay$", "replay-CacheTake", extra=ov)
     # ---- code -> spec: free-running stress
     _stress(run, PKG, DRV, "TestVerifFlightStress$", "stress", 400 if thorough else 60,
